@@ -43,6 +43,9 @@ func famSuffix(base, stem, sep, ext string) urlFamily {
 
 func randFamily(r *Rng) urlFamily {
 	host := r.Pick("example.com", "example.com", "www.example.com", "news.example.org:8080", "Example.COM")
+	if r.Chance(6) {
+		host = "\u212Aiosk.example.com" // KELVIN SIGN: lower-cases to an ASCII 'k', two bytes shorter
+	}
 	base := r.Pick("http", "https") + "://" + host
 	stem := r.Pick("/news/story", "/a", "/blog/2024/05/a-long-post-title", "/article", "/caf%C3%A9/men%C3%BC", "/a%20b/c", "/x/y/z/w", "/forum/thread")
 	switch r.Intn(8) {
@@ -142,7 +145,21 @@ func genPager(r *Rng, g *PageGen) pagerCase {
 			if pu == nil {
 				return "#", "hash"
 			}
-			switch r.Intn(3) {
+			switch r.Intn(5) {
+			case 3:
+				// the host spelled with the other member of a case-folding pair (k / KELVIN SIGN)
+				h := pu.Host
+				if strings.Contains(h, "\u212A") {
+					h = strings.ReplaceAll(h, "\u212A", "k")
+				} else if strings.Contains(h, "k") {
+					h = strings.Replace(h, "k", "\u212A", 1)
+				} else {
+					h = "\u212A" + h
+				}
+				return pu.Scheme + "://" + h + pu.RequestURI(), "casefold-host"
+			case 4:
+				// … and just its root: shorter than the page's own scheme://host/ prefix
+				return pu.Scheme + "://" + strings.ReplaceAll(pu.Host, "\u212A", "k") + "/", "casefold-host-root"
 			case 0:
 				return pu.Scheme + "://" + pu.Host + ".mirror-cdn.net" + pu.RequestURI(), "lookalike-host"
 			case 1:
@@ -460,4 +477,27 @@ func prevNextCase(d *Doc, root *html.Node, page *nurl.URL, findNext bool) (paylo
 	}
 	payload = fmt.Sprintf("%d %s %d %s", len(bs), strings.Join(bs, " "), len(cs), strings.Join(cs, " "))
 	return payload, hx(result), len(cands)
+}
+
+// casefoldPager: the page URL and the anchors spell the host with different members of a
+// case-folding pair whose UTF-8 lengths differ (k / KELVIN SIGN U+212A), in both directions,
+// including anchors that are shorter than the page's own scheme://host/ prefix.
+func casefoldPager(r *Rng) pagerCase {
+	kelvin, ascii := "\u212Aiosk.example.com", "kiosk.example.com"
+	pageHost, linkHost := kelvin, ascii
+	if r.Chance(40) {
+		pageHost, linkHost = ascii, kelvin
+	}
+	k := r.Range(1, 5)
+	var items []string
+	for _, h := range []string{linkHost, pageHost} {
+		items = append(items, fmt.Sprintf(`<a href="http://%s/">%s</a>`, h, r.Pick("next", "Next", "home", "2")))
+		items = append(items, fmt.Sprintf(`<a href="http://%s/a?page=%d">%s</a>`, h, k+1, r.Pick("next", "Next »", "3")))
+		items = append(items, fmt.Sprintf(`<a href="http://%s/a?page=%d">%s</a>`, h, k-1, r.Pick("prev", "Previous", "1")))
+		items = append(items, fmt.Sprintf(`<a href="http://%s">%s</a>`, h, r.Pick("next", "more")))
+	}
+	body := "<p>" + strings.Repeat("word ", 80) + "</p>"
+	return pagerCase{PageURL: fmt.Sprintf("http://%s/a?page=%d", pageHost, k),
+		HTML: "<html><head><title>A paginated article</title></head><body>" + body + `<div class="pagination">` + strings.Join(items, " ") + "</div></body></html>",
+		Desc: map[string]string{"family": "casefold-host"}}
 }
